@@ -363,6 +363,23 @@ f(a, *b, c=1, *d, **e, f=2)
 g(*a, b, *c, d=1)
 class X(*bases, k=1, *more): pass
 ''',
+# 16b interleaved star / keyword arguments over several lines (column order differs from source order)
+'''\
+func(key=1,
+    *rest)
+class Cls(Base, metaclass=Meta,
+    *mixins): pass
+r = f(a, k=1,
+  *b, j=2,
+ *c, **d)
+class D(
+        A, k=1,
+    *B,
+  j=2): pass
+g(x,
+            kw=1,
+  *args)
+''',
 # 17 try variants, nested try
 '''\
 try:
@@ -630,8 +647,9 @@ def relayout(src: str, rng: random.Random) -> str:
                 depth += 1
             elif t.string in ')]}':
                 depth -= 1
-            elif depth > 0 and t.string == ',' and rng.random() < 0.3:
-                edits.append((t.end[0] - 1, t.end[1], rng.choice(['  ', '\n        ', '  # c\n      ', ' \\\n   '])))
+            elif depth > 0 and t.string == ',' and rng.random() < 0.35:
+                ind = ' ' * rng.choice([0, 1, 2, 4, 8, 13])   # inside brackets any indentation is legal: later lines may start left of earlier elements
+                edits.append((t.end[0] - 1, t.end[1], rng.choice(['  ', '\n' + ind, '  # c\n' + ind, ' \\\n' + ind])))
             elif depth == 0 and t.string in ('+', '-', '*', '==', 'and', 'or') and rng.random() < 0.2:
                 edits.append((t.end[0] - 1, t.end[1], rng.choice(['  ', ' \\\n      '])))
     for ln, col, text in sorted(edits, reverse=True):
